@@ -146,6 +146,7 @@ PROPS["C14"] = {
             "serialised bytes decoded and re-encoded by the Lean envelope codec; PLUS scale cases at sizes around the powers of two (15..300 characters, 255/256/257/300 tags or candidates, 4 KiB strings, 2^16 counts; cases too large for the Lean model run as oracle-only BIG cases) and special scalar values (BOM, joiners, controls, plane edges): see DESIGN.md section 11; "
             "non-trivial = distinct case whose predictors were built",
     "scopes": {},
+    "extras": [extras.example_embedded],
     "assumptions": ["daachorse serialize/deserialize_unchecked are inverse on self-produced bytes (opaque blob in the model)"],
 }
 PROPS["C16"] = {
@@ -161,7 +162,7 @@ PROPS["C16"] = {
             "text and a NUL text) x wsconst strings over {D,R,H,T,K,O,G} (all strings of length <=2 on one model, random up to "
             "length 4); non-trivial = distinct case that produced tokens / a normalised string",
     "scopes": {"quick": "all Unicode scalar values; all wsconst strings len<=2 on one model", "thorough": "same"},
-    "extras": [extras.normaliser_table],
+    "extras": [extras.normaliser_table, extras.example_wasm],
     "assumptions": ["tantivy's TextAnalyzer plumbing is not modelled (the harness drives Tokenizer::token_stream directly)",
                     "the grapheme segmentation of the normalised text is an input of the model"],
 }
@@ -244,4 +245,4 @@ PROPS["C18"] = {
     "assumptions": ["memory safety inside daachorse and hashbrown and of deserialize_unchecked on self-produced bytes is outside the model"],
 }
 
-SETUP_EXTRA = [extras.build_repo_bins, extras.build_train_hooks, extras.setup_feature_builds, extras.build_tantivy]
+SETUP_EXTRA = [extras.build_repo_bins, extras.build_train_hooks, extras.setup_feature_builds, extras.build_tantivy, extras.build_examples]
